@@ -149,6 +149,11 @@ class TTGen:
         """A statement that may cause defeat (try bodies / defeat functions)."""
         r = self.rnd
         c = r.randrange(10)
+        if r.random() < 0.07:
+            # compile-time constant conditions have their own lowering (bare defeat / nothing at all)
+            return [ex(call('!truth_is_defeat', r.choice((
+                B(True), B(False), bin_('<', I(1), I(2)), ('un', 'not', B(False)), is_(I(3), 'bool'),
+                bin_('==', I(2), I(3)), bin_('or', B(True), B(False)), is_(I(0), 'bool')))))]
         if c < 5:
             return [ex(call('!truth_is_defeat', self.bool_expr(2)))]
         if c < 8 and self.dfuncs and self.feat('defeat_funcs'):
